@@ -1,5 +1,5 @@
-import sys, time
-sys.path.insert(0, '/verif')
+import os, sys, time
+sys.path.insert(0, os.path.dirname(os.path.dirname(os.path.abspath(__file__))))
 from pyvc.verify import World, verify_function
 w = World()
 targets = [a for a in sys.argv[1:] if not a.startswith("-")]
